@@ -136,3 +136,32 @@ pub fn do_libdis(bytes: &[u8]) -> String {
     });
     r.unwrap_or_else(|_| "PANIC:load".into())
 }
+
+/// lifting of a loaded module: Debug text of the structured module (C18)
+pub fn do_lift(bytes: &[u8]) -> String {
+    let r = std::panic::catch_unwind(|| match dr::load_bytes(bytes) {
+        Ok(m) => match std::panic::catch_unwind(|| rspirv::lift::LiftContext::convert(&m)) {
+            Ok(Ok(sm)) => {
+                let mut parts = vec![
+                    format!("version={}", sm.version),
+                    format!("caps={:?}", sm.capabilities),
+                    format!("mm={:?}", sm.memory_model),
+                    format!("types={:?}", sm.types),
+                    format!("consts={:?}", sm.constants),
+                    format!("ops={:?}", sm.ops),
+                ];
+                for (i, f) in sm.functions.iter().enumerate() {
+                    parts.push(format!("fn{}.control={:?}", i, f.control));
+                    parts.push(format!("fn{}.result={:?}", i, f.result));
+                    parts.push(format!("fn{}.blocks={:?}", i, f.blocks));
+                    parts.push(format!("fn{}.start={:?}", i, f.start_block));
+                }
+                format!("OK:{}", hexs(&parts.join(";;")))
+            }
+            Ok(Err(e)) => format!("LIFTERR:{}", hexs(&format!("{:?}", e))),
+            Err(_) => "PANIC:lift".into(),
+        },
+        Err(e) => format!("ERR:{}", hexs(&e.to_string())),
+    });
+    r.unwrap_or_else(|_| "PANIC:load".into())
+}
